@@ -419,4 +419,76 @@ def abs_fx(v):
 
 
 SEARCH_ONLY = {a.key: a for a in [Mol2(), CubeA(), Fcidump(), Poscar()]}
-SPEC_ONLY = {a.key: a for a in [Gro(), Mol2(), ExtXyz()]}
+class GamessPunch(Adapter):
+    """GAMESS(US)/Firefly punch file (`*.dat`): $DATA group, geometry block, $GRAD, $HESS (records `I2,I3,5E15.8`: the
+    row number is printed modulo 100, the record number counts the lines of a row), ATOMIC MASSES."""
+
+    key = "gamess"
+    fmt = "gamess"
+    readonly = True
+
+    def pick_natom(self, rng, i, thorough):
+        classes = [1, 2, 3, 11, 33, 34, 35, 67, *([100, 134] if thorough else [])]  # 3N crosses 100, 200, (300, 400)
+        return classes[i] if i < len(classes) else rng.randint(1, 12)
+
+    def spec_case(self, rng, natom, i):
+        from iodata.periodic import num2sym
+        from iodata.utils import angstrom
+
+        zs = [rng.randint(1, 36) for _ in range(natom)]
+        syms = [num2sym[z].upper() for z in zs]
+        xyz = [[float(f"{rng.uniform(-20, 20):.10f}") for _ in range(3)] for _ in range(natom)]
+        grad = [[float(f"{rng.uniform(-1, 1) * 10 ** rng.randint(-6, -1):.10E}") for _ in range(3)] for _ in range(natom)]
+        n3 = 3 * natom
+        hess = [[float(f"{(0.0 if rng.random() < 0.5 else rng.uniform(-2, 2)):.8E}") for _ in range(n3)] for _ in range(n3)]
+        energy = float(f"{rng.uniform(-2000, -1):.10f}")
+        title = F.rand_title(rng, allow_empty=False)[:60] or "t"
+        L = ["$DATA", title.ljust(80), "C1       0"]
+        for sym, z, r in zip(syms, zs, xyz):
+            L.append(f"{sym:<10s}{float(z):5.1f}{r[0]:18.10f}{r[1]:18.10f}{r[2]:18.10f}")
+            L += ["   S          1", "     1         0.4830000000  1.00000000", "           "]
+        L.append(" $END      ")
+        L.append("-------------------- DATA FROM NSERCH=   0 --------------------")
+        L.append(" COORDINATES OF SYMMETRY UNIQUE ATOMS (ANGS)")
+        L.append("   ATOM   CHARGE       X              Y              Z")
+        L.append(" ------------------------------------------------------------")
+        for sym, z, r in zip(syms, zs, xyz):
+            L.append(f" {sym:<10s}{float(z):5.1f}{r[0]:15.10f}{r[1]:15.10f}{r[2]:15.10f}")
+        L.append(" $GRAD")
+        L.append(f"E={energy:20.10f}  GMAX=   0.0000338  GRMS=   0.0000154")
+        for sym, z, g in zip(syms, zs, grad):
+            L.append(f"{sym:<10s}{float(z):5.0f}.{g[0]:20.10E}{g[1]:20.10E}{g[2]:20.10E}")
+        L.append(" $END")
+        L.append(" $HESS")
+        L.append(f"ENERGY IS{energy:20.10f} E(NUC) IS      273.9207388851")
+        for irow, row in enumerate(hess):
+            for rec, j in enumerate(range(0, n3, 5)):
+                L.append(f"{(irow + 1) % 100:2d}{(rec + 1) % 1000:3d}" + "".join(f"{v:15.8E}" for v in row[j:j + 5]))
+        L.append(" $END")
+        masses = [float(f"{rng.uniform(1, 90):.5f}") for _ in range(natom)]
+        L.append("ATOMIC MASSES")
+        for j in range(0, natom, 5):
+            L.append("".join(f"{m:12.5f}" for m in masses[j:j + 5]))
+        raw = ("\n".join(L) + "\n").encode()
+
+        def check(d):
+            bad = []
+            if [int(z) for z in d.atnums] != zs:
+                bad.append("atnums")
+            want = np.array(xyz) * angstrom
+            if d.atcoords.shape != want.shape or not np.all(np.abs(d.atcoords - want) <= 4e-16 * np.abs(want) + 1e-300):
+                bad.append("atcoords")
+            if d.energy != energy:
+                bad.append("energy")
+            if d.atgradient is None or not np.array_equal(np.asarray(d.atgradient, float), np.array(grad)):
+                bad.append("atgradient")
+            if d.athessian is None or not np.array_equal(np.asarray(d.athessian, float), np.array(hess)):
+                bad.append("athessian")
+            if d.title != title.strip():
+                bad.append("title")
+            return bad
+
+        return raw, check, f"natom={natom}/3N={'>=100' if n3 >= 100 else '<100'}"
+
+
+SPEC_ONLY = {a.key: a for a in [Gro(), Mol2(), ExtXyz(), GamessPunch()]}
